@@ -275,7 +275,7 @@ def obligations(tier):
                     at = (2,)
                 its = ['int64']
                 if kind == 'overflow':
-                    its = INDEXTYPES if thorough else ['int8', 'uint16']
+                    its = [t for t in INDEXTYPES if t != 'int64'] if thorough else ['int8', 'uint16']   # int64 cannot overflow within the length bound
                 for it in its:
                     for j in ((0, 1, 2) if kind == 'iterraise' else (0, 1)):
                         for qn in ((False, True) if K + j >= 2 else (None,)):
